@@ -155,6 +155,42 @@ func c18Mode(args []string) {
 			}
 		}
 	}
+	// "used when AllowStyles is given no matcher": the builder binds, for every property name of a call and in every scope, the
+	// default handler OF THAT PROPERTY (and the reject-all handler for an unknown name)
+	{
+		probes := []string{"red", "1px", "inherit", "initial", "left", "10%", "none", "auto", "url(http://x/y.png)", "1px solid red", "bold", "2", "center top", "expression(1)"}
+		bound := 0
+		for i := 0; i < len(props); i += 2 {
+			names := []string{props[i], props[(i+1)%len(props)], "verif-unknown-" + props[i], props[(i+7)%len(props)]}
+			for scope := 0; scope < 3; scope++ {
+				p := bluemonday.NewPolicy()
+				p.AllowElements("p")
+				b := p.AllowStyles(names...)
+				switch scope {
+				case 0:
+					b.Globally()
+				case 1:
+					b.OnElements("p")
+				default:
+					b.OnElementsMatching(regexp.MustCompile(`^p$`))
+				}
+				for _, n := range names {
+					want := css.GetDefaultHandler(n)
+					for _, v := range probes {
+						sum.Evaluations++
+						bound++
+						kept := strings.Contains(p.Sanitize(`<p style="`+n+`: `+v+`">x</p>`), "style=")
+						if kept != want(v) && len(sum.OracleFails) < 40 {
+							sum.OracleFails = append(sum.OracleFails, map[string]any{"kind": "default-handler-binding", "clause": "a property allowed without a matcher is not judged by its own default handler",
+								"property_name": n, "value": v, "kept": kept, "default_handler_accepts": want(v), "allow_styles_names": names, "scope": []string{"Globally", "OnElements", "OnElementsMatching"}[scope],
+								"input_text": `<p style="` + n + `: ` + v + `">x</p>`})
+						}
+					}
+				}
+			}
+		}
+		sum.Distribution["default-binding-probes"] = bound
+	}
 	sum.Distribution["handlers"] = len(props)
 	sum.Nontrivial = len(distinct)
 	sum.Samples = append(sum.Samples, map[string]any{"property": "color", "base": "red", "fragment": "expression(alert(1))", "placements": "glued-after, glued-before, appended, prepended, comma, semicolon, slash, inserted at every byte position"})
